@@ -46,6 +46,13 @@ def main():
     p = os.path.join(VERIF, "DESIGN.md")
     s = open(p).read()
     s = re.sub(r"<!-- DETECTION:BEGIN -->.*<!-- DETECTION:END -->", "<!-- DETECTION:BEGIN -->\n" + block.replace("\\", "\\\\") + "<!-- DETECTION:END -->", s, flags=re.S)
+    kf = json.load(open(os.path.join(VERIF, "known_findings.json")))
+    kl = ["", "| id | property | signature (must match exactly) | what fails |", "|---|---|---|---|"]
+    for f in kf["findings"]:
+        kl.append(f"| {f['id']} | {f['property']} | `{json.dumps(f['match'], sort_keys=True)}` | {f['what'].replace('|', '/')} |")
+    kl.append("")
+    kl.append(f"{len(kf['fixed'])} `fixed:` entries record the repaired defects (one `fix:` commit each); they suppress nothing.")
+    s = re.sub(r"<!-- KNOWN:BEGIN -->.*<!-- KNOWN:END -->", lambda m: "<!-- KNOWN:BEGIN -->\n" + "\n".join(kl) + "\n<!-- KNOWN:END -->", s, flags=re.S)
     open(p, "w").write(s)
     print("seeds:", len(glob.glob(os.path.join(VERIF, "seeded", "*"))), "mutants:", len(json.load(open(rp))) if os.path.exists(rp) else 0)
 
